@@ -104,6 +104,9 @@ func c12After(m *machine, txn *transaction.Transaction, o sim.Outcome, before *s
 			}
 			return fmt.Errorf("%s", m.viol("challenge-pool-differs", "allocation %s: challenge pool %d, sum of blobber values %d (difference %d;%s) after %s (%s)", a.id[:8], cp, sum, int64(cp)-int64(sum), per, txn.FunctionName, map[bool]string{true: "failed", false: "ok"}[o.Failed]))
 		}
+		if txn.FunctionName == "commit_connection" && !o.Failed && al.WritePool == 0 && before.allocs[a.id].WritePool > 0 && cp > before.cpool[a.id] {
+			vkit.For("C12").Class("upload-took-the-whole-write-pool")
+		}
 		if cp != before.cpool[a.id] && cp > 0 {
 			c12Changed++
 			vkit.For("C12").Class("pool-changed-by/" + txn.FunctionName)
@@ -131,9 +134,9 @@ func TestC12_ChallengePoolEqualsBlobberValues(t *testing.T) {
 // that has open or failed challenges, kills, owner changes of the economic settings (slash 0 .. 1), hard-fork variants.
 func TestC12_Scripts(t *testing.T) {
 	caseReset["C12"] = func() { c12Changed = 0 }
-	ops := []string{"newAlloc2", "newAlloc2", "fillAlloc", "fillAlloc", "upload", "upload", "delete", "missThenPass", "missThenPass", "missThenPass", "repriceExtend", "repriceExtend",
+	ops := []string{"newAlloc2", "newAlloc2", "fillAlloc", "fillAlloc", "datedFill", "extendBackdate", "extendBackdate", "upload", "upload", "delete", "missThenPass", "missThenPass", "missThenPass", "repriceExtend", "repriceExtend",
 		"replaceChallenged", "replaceChallenged", "extend2", "kill", "shutdown", "cancel", "finalize", "storageSettings", "advance", "blobberSettings2", "writeLock", "respond"}
-	runMachineOps(t, "C12", ops, "scripted storage histories (6 blobbers, 4 validators, fork variants none / demeter / demeter+electra): allocations with tight or generous locks, markers that fill a blobber's share, deletes, series of 2..4 challenges on allocations with data of which early ones are failed / unanswered / answered late and later ones passed, write price changes of an allocation's blobbers in opposite directions followed by an extension, replacement of a blobber that has open or failed challenges or an outstanding value, extensions by third parties, kills and shutdowns, owner updates of blobber_slash / kill_slash / cancellation_charge / validator_reward to 0 .. 1, closes"+c12Oracle, 30, 60, c12After, c12Finish)
+	runMachineOps(t, "C12", ops, "scripted storage histories (6 blobbers, 4 validators, fork variants none / demeter / demeter+electra): allocations with tight or generous locks, markers that fill a blobber's share (also dated by the client anywhere in the allocation's life, which after an extension makes an upload cost more than the write pool holds), deletes, series of 2..4 challenges on allocations with data of which early ones are failed / unanswered / answered late and later ones passed, write price changes of an allocation's blobbers in opposite directions followed by an extension, replacement of a blobber that has open or failed challenges or an outstanding value, extensions by third parties, kills and shutdowns, owner updates of blobber_slash / kill_slash / cancellation_charge / validator_reward to 0 .. 1, closes"+c12Oracle, 30, 60, c12After, c12Finish)
 }
 
 // C13: a blobber's allocated size equals the sum of its per-blobber sizes over the open allocations it serves and never
